@@ -52,6 +52,7 @@
  */
 
 #include <ctype.h> /* For isdigit() */
+#include <errno.h> /* For strtoul() range errors */
 
 #include "wbxml_encoder.h"
 #include "wbxml_log.h"
@@ -3078,15 +3079,31 @@ static WBXMLError wbxml_encode_wv_integer(WBXMLEncoder *encoder, WB_UTINY *buffe
     WB_UTINY octets[4];
     WB_ULONG the_int = 0, start = 0;
     WB_LONG i = 0;
+    unsigned long val = 0;
+    WB_TINY *end = NULL;
 
     if ((encoder == NULL) || (buffer == NULL))
         return WBXML_ERROR_INTERNAL;
 
+    /* Not a number: do not encode it as one (it is kept as a string) */
+    if (!WBXML_ISDIGIT(buffer[0]))
+        return WBXML_NOT_ENCODED;
+
+    errno = 0;
     if (buffer[1] == 'x' || buffer[1] == 'X') {
-        the_int = (WB_ULONG) strtol((const WB_TINY *) buffer , NULL , 16);
+        val = strtoul((const WB_TINY *) buffer, &end, 16);
     } else {
-        the_int = (WB_ULONG) atol((const WB_TINY *) buffer);
+        val = strtoul((const WB_TINY *) buffer, &end, 10);
     }
+
+    if (*end != '\0')
+        return WBXML_NOT_ENCODED;
+
+    /* "An integer is a number from 0-4294967295": do not wrap around */
+    if ((errno == ERANGE) || (val > 0xffffffff))
+        return WBXML_ERROR_WV_INTEGER_OVERFLOW;
+
+    the_int = (WB_ULONG) val;
 
 
     for (i = 3; the_int > 0 && i >= 0; i--) {
